@@ -37,3 +37,9 @@ PROPS["C17"] = {"pkgs": [(".", "TestVerif_C17")],
                 "trusted_base": ["HMAC-SHA1, base64 and MD5 are symbolic in the model; the harness recomputes the expected password/key "
                                  "with crypto/hmac and reports equality", "time.Now is testing/synctest's clock (starts 2000-01-01)"],
                 "assumptions": ["unix(now+duration) fits int64 (instants after 1970)", "forgery theorem: HMAC/base64/MD5 key derivation injective"]}
+
+PROPS["C12"] = {"pkgs": [(".", "TestVerif_C12")],
+                "trusted_base": ["the client's socket is scripted (write outcomes are the model's environment input); responses are injected "
+                                 "through Client.HandleInbound; time.AfterFunc under testing/synctest",
+                                 "the serialisation of timer callbacks and responses by Client.mutexTrMap is modelled as atomic events (C18 covers locks)"],
+                "assumptions": ["transaction ids are fresh (96 random bits in the implementation)"]}
